@@ -207,6 +207,7 @@ func c19() {
 			run.Inconclusive(fmt.Sprintf("targets %v select the files %q, which no executed target covers: their constants cannot be observed here", tgs, sel))
 		}
 	}
+	c19AllExported(run, o)
 	c19GoarchOverlay(run, harness, bin)
 	// the compiler asserts the constants for targets that cannot be executed here (static, listed separately)
 	c19CompileAsserts(run, o)
